@@ -2,6 +2,7 @@
 Driver for C06.  Request line:
   v=<10|20|30|31> op=<add|sub|mul|div|idiv|mod|neg|pos|abs|floor|ceiling|round1|round|rhe> a=<val> b=<val|_> p=<int|_>
 values:  i:<int>   d:<coefficient>:<scale>   D:<num>/<den> | D:NaN | D:INF | D:-INF | D:0 | D:-0   F:… (xs:float)
+         E  (the empty sequence, XPath 2.0+)
          S:<code points separated by '.'>  (a string operand, XPath 1.0 parser only; `S:` = empty string)
 Answer:  model=<res> spec=<res> specI=<res|_> flags=<comma separated | _> mraw=<typed model result>
 results: i:<n>  d:<num>/<den>  D:<num>/<den>|D:NaN|…  F:…  ERR:<code>;  for v=10: N:<num>/<den>|N:NaN|… (the
@@ -12,6 +13,7 @@ flags (trigger predicates computed from the input only):
   F06c  xs:float involved and an operand or the exact result is not a binary32 value kept by `Float`
   F06p  fn:round / round-half-to-even leave the 2000-digit local decimal context
   F06v  XPath 1.0: integer/decimal literals computed exactly, value differs from IEEE arithmetic
+  sterr idiv with an empty operand: XPST0005 is a permitted static error (no spec comparison)
   idef  idiv/mod on decimals whose quotient has more than 28 digits (no spec comparison)
   fhyp  xs:float-typed operation inside the hypotheses of float_ops_eq_spec_up_to_rounding: impl must equal specI
   ovf   an integer operand beyond the xs:double range meets a float (FOAR0002 or ±INF both conform: no spec comparison)
@@ -66,6 +68,7 @@ def showX : XVal → String
 def showErr : Err → String
   | .FOAR0001 => "ERR:FOAR0001" | .FOAR0002 => "ERR:FOAR0002" | .XPTY0004 => "ERR:XPTY0004"
   | .XPST0017 => "ERR:XPST0017" | .FOCA0002 => "ERR:FOCA0002" | .other => "ERR:OTHER"
+  | .XPST0005 => "ERR:XPST0005"
 
 def showRes : Except Err XVal → String
   | .ok v => showX v
@@ -127,12 +130,36 @@ def answer (line : String) : String :=
   | none => "bad-line"
   | some .v10 => answer10 R fs
   | some v =>
-    match parseNum (field fs "a") with
+    let opS := field fs "op"
+    let p : Int := (int? (field fs "p")).getD 0
+    let aS := field fs "a"
+    let bS := field fs "b"
+    if aS == "E" || bS == "E" then
+      -- an empty-sequence operand (XPath 2.0+)
+      let a? := if aS == "E" then some none else (parseNum aS).map some
+      let b? := if bS == "E" then some none else (parseNum bS).map some
+      match binOp? opS, a?, b? with
+      | some op, some a, some b =>
+        let showE : Except Err (Option XVal) → String
+          | .ok (some x) => showX x | .ok none => "EMPTY" | .error e => showErr e
+        let m := (modelBinE R v op a b).map (Option.map absNum)
+        let s := specBinE R op (a.map absNum) (b.map absNum)
+        let fl := if op == .idiv then "sterr" else "_"
+        s!"model={showE m} spec={showE s} specI=_ flags={fl} mraw={showE m}"
+      | none, some a, _ =>
+        match unOp? opS p with
+        | none => "bad-op"
+        | some op =>
+          let showO : Option XVal → String | some x => showX x | none => "EMPTY"
+          let m := (modelUnE R v op a).map absNum
+          let s := specUnE R op (a.map absNum)
+          s!"model={showO m} spec={showO s} specI=_ flags=_ mraw={showO m}"
+      | _, _, _ => "bad-operand"
+    else
+    match parseNum aS with
     | none => "bad-a"
     | some a =>
-      let opS := field fs "op"
-      let p : Int := (int? (field fs "p")).getD 0
-      match binOp? opS, parseNum (field fs "b") with
+      match binOp? opS, parseNum bS with
       | some op, some b =>
         let m := modelBin R v op a b
         let s := (specBin R op (absNum a) (absNum b)).map ctxDec
